@@ -305,4 +305,78 @@ theorem onRecvPacket_unwind_succeeds {cfg : Config} {c : Nat} {ch : Chain} {data
   simp only [this, if_false]
   exact ⟨_, rfl⟩
 
+/-! ### sending a voucher back -/
+
+theorem Bank.burn_isSome {b : Bank} {m : Addr} {d : Str} {n : Nat} (h1 : n ≤ b.bal m d) (h2 : n ≤ b.supply d) :
+    ∃ b', b.burn m d n = some b' := by
+  unfold Bank.burn
+  have : ¬ (b.bal m d < n ∨ b.supply d < n) := by omega
+  simp only [this, if_false]
+  exact ⟨_, rfl⟩
+
+/-- the burn branch of `SendTransfer` succeeds when nothing on the sending side objects and the sender
+    holds the vouchers -/
+theorem sendTransfer_burn_succeeds {cfg : Config} {c : Nat} {ch : Chain} {port chan : Str} {tok : Denom} {n : Nat} {s : Addr}
+    (hse : ch.sendEnabled = true) (hbl : isBlockedAddr cfg c s = false)
+    (hsdk : sdkValidDenom (tok.ibcDenom cfg.hashHex) = true) (hpre : tok.hasPrefix port chan = true)
+    (hf : n ≤ ch.bank.bal s (tok.ibcDenom cfg.hashHex)) (hsup : n ≤ ch.bank.supply (tok.ibcDenom cfg.hashHex)) :
+    ∃ ch', sendTransfer cfg c ch port chan tok n s = .ok ch' := by
+  obtain ⟨b1, hb1⟩ := Bank.send_isSome (t := cfg.moduleAddr) hf
+  obtain ⟨_, hs1, hbal1⟩ := Bank.send_some hb1
+  have hm : n ≤ b1.bal cfg.moduleAddr (tok.ibcDenom cfg.hashHex) := by
+    rw [hbal1]
+    simp only [if_true]
+    split_ifs <;> omega
+  obtain ⟨b2, hb2⟩ := Bank.burn_isSome hm (by rw [hs1]; exact hsup)
+  unfold sendTransfer
+  simp only [ics20SendCoinDenom, hse, hbl, hsdk, hpre, Bool.not_true, Bool.false_eq_true, if_false, if_true, hb1, hb2]
+  exact ⟨_, rfl⟩
+
+/-- a voucher recorded in the store is found by `TokenFromCoin` under its coin denomination
+    (`ibc/` + hash of its path), given the store is keyed (`DenomsKeyed`) and the hash is printed as
+    64 upper-case hex digits -/
+theorem tokenFromCoin_of_stored {cfg : Config} {ch : Chain} {Y : Denom}
+    (hk : (ch.denoms.map fun x => cfg.hashHex x.path).Nodup) (hmem : Y ∈ ch.denoms)
+    (hfmt : validHexHash (cfg.hashHex Y.path) = true)
+    (hup : (cfg.hashHex Y.path).map Char.toUpper = cfg.hashHex Y.path) :
+    tokenFromCoin cfg ch ("ibc/".toList ++ cfg.hashHex Y.path) = .ok Y := by
+  unfold tokenFromCoin
+  have hs : stripPrefix "ibc/".toList ("ibc/".toList ++ cfg.hashHex Y.path) = some (cfg.hashHex Y.path) := by
+    unfold stripPrefix
+    rw [isPrefixOf_append_self]
+    simp
+  simp only [hs, hfmt, Bool.not_true, Bool.false_eq_true, if_false, hup, getDenom_of_mem hk Y hmem]
+
+/-- **`MsgTransfer` accepts a voucher for the way home.**  On a chain holding voucher `Y` whose first hop
+    is the channel `m.chan` it is sent over (v1), with `TokenFromCoin` resolving the coin to `Y`: if
+    sending is enabled, the sender decodes and is not blocked, the amount is positive and covered, the
+    sender / receiver strings are non-blank, and core IBC commits the packet, then `Transfer` succeeds,
+    burns exactly that amount of the voucher and emits a packet carrying `Y`'s path. -/
+theorem transfer_voucher_home_succeeds {cfg : Config} {c : Nat} {ch : Chain} {m : MsgTransfer} {seq : Nat} {Y : Denom}
+    {s : Addr} {dc : Nat} {did : Str}
+    (hse : ch.sendEnabled = true) (hs : cfg.decode m.sender = some s) (hbl : isBlockedAddr cfg c s = false)
+    (hamt : m.amount ≠ unbounded) (hpos : m.amount ≠ 0)
+    (htok : tokenFromCoin cfg ch m.denom = .ok Y) (hY : GoodDenom Y) (hYv : Y.validate = none)
+    (hpre : Y.hasPrefix transferPort m.chan = true)
+    (hnb1 : goBlank m.sender = false) (hnb2 : goBlank m.receiver = false)
+    (hv1 : cfg.hasChannel c m.port m.chan = true) (hal : m.alias = false)
+    (hpeer : cfg.peer c m.chan = some (dc, did))
+    (hf : m.amount ≤ ch.bank.bal s (Y.ibcDenom cfg.hashHex)) (hsup : m.amount ≤ ch.bank.supply (Y.ibcDenom cfg.hashHex))
+    (hsdk : sdkValidDenom (Y.ibcDenom cfg.hashHex) = true) :
+    ∃ ch' p, transfer cfg c ch m none seq = .ok (ch', p) ∧ p.data.denom = Y.path ∧ p.data.amount = m.amount ∧
+      p.dstChain = dc ∧ p.dstChan = did ∧
+      ch'.bank.supply (Y.ibcDenom cfg.hashHex) + m.amount = ch.bank.supply (Y.ibcDenom cfg.hashHex) := by
+  obtain ⟨ch', hst⟩ := sendTransfer_burn_succeeds (cfg := cfg) (c := c) (port := transferPort) (chan := m.chan) hse hbl hsdk hpre hf hsup
+  have hexp : expandAmount ch s m = some m.amount := by simp [expandAmount, hamt]
+  have hval : validatePacketData ⟨Y.path, m.amount, m.sender, m.receiver, m.memo⟩ = none := by
+    simp [validatePacketData, hpos, hnb1, hnb2, hY.stable.symm ▸ hYv, show extract Y.path = Y from hY.stable, hYv]
+  refine ⟨ch', ⟨c, transferPort, m.chan, dc, transferPort, did, seq, false, ⟨Y.path, m.amount, m.sender, m.receiver, m.memo⟩⟩, ?_, rfl, rfl, rfl, rfl, ?_⟩
+  · unfold transfer
+    simp only [hse, hs, hexp, htok, hY.1, hval, hv1, hal, hst, hpeer, Bool.not_true, Bool.false_eq_true, if_false,
+      Bool.not_false, Bool.and_self, if_true]
+  · obtain ⟨_, _, _, _, heff⟩ := sendTransfer_effect hst
+    rcases heff with ⟨_, hsn, _, hsup', _⟩ | ⟨hpF, _⟩
+    · rw [hsup']; simp only [if_true]; omega
+    · rw [hpre] at hpF; cases hpF
+
 end IbcVerif.Ics20
